@@ -501,9 +501,15 @@ def run_case(spec, ctx):
                 what = "revoked"
                 cleaned, _ = model_exclude(base)
                 h = hashlib.sha256(pv.serialize_play(pv.exclude_dynamic_elements(base))).hexdigest()
-                revoked = [{"name": "other%d" % n_, "hash": "%02x" % n_ * 32} for n_ in range(rng.randint(0, 4))]
-                revoked.insert(rng.randint(0, len(revoked)), {"name": "this", "hash": rng.choice([h, h.upper()])})
-                ctx.seen("revoked_entry_positions", "%d of %d" % ([r_["name"] for r_ in revoked].index("this") + 1, len(revoked)))
+                # entries may share a name (two revoked versions of one playbook) or have none
+                names_ = rng.choice([["other%d" % n_ for n_ in range(4)], ["same"] * 4, [None] * 4, ["same", None, "same", "x"]])
+                revoked = [{"name": names_[n_], "hash": "%02x" % n_ * 32} for n_ in range(rng.randint(0, 4))]
+                pos_ = rng.randint(0, len(revoked))
+                revoked.insert(pos_, {"name": rng.choice(["this", "same", None]), "hash": rng.choice([h, h.upper()])})
+                for r_ in revoked:
+                    if r_["name"] is None:
+                        del r_["name"]
+                ctx.seen("revoked_entry_positions", "%d of %d" % (pos_ + 1, len(revoked)))
             elif choice == 6:
                 base["vars"] = "not a mapping"
                 what = "vars-not-a-mapping"
